@@ -1,0 +1,144 @@
+//go:build verif
+
+package escape
+
+import (
+	"fmt"
+	"sort"
+
+	"github.com/awslabs/ar-go-tools/analysis/dataflow"
+	"golang.org/x/tools/go/ssa"
+)
+
+// Verification hooks (compiled only with -tags verif).
+
+var (
+	verifBlockPerm func(n int) []int
+	verifFuncPerm  func(n int) []int
+	verifMonoLog   []string
+)
+
+// VerifSetWorklistPerm installs permutation functions applied to the block worklist of the per-function
+// convergence loop and to the function worklist of the whole-program loop before each pop (nil disables).
+func VerifSetWorklistPerm(block, fn func(n int) []int) {
+	verifBlockPerm, verifFuncPerm = block, fn
+}
+
+func verifReorderBlocks(ea *functionAnalysisState) {
+	if verifBlockPerm == nil || len(ea.worklist) < 2 {
+		return
+	}
+	p := verifBlockPerm(len(ea.worklist))
+	if len(p) != len(ea.worklist) {
+		return
+	}
+	nw := make([]*ssa.BasicBlock, len(p))
+	for i, j := range p {
+		nw[i] = ea.worklist[j]
+	}
+	ea.worklist = nw
+}
+
+func verifReorderFuncs(wl []*functionAnalysisState) {
+	if verifFuncPerm == nil || len(wl) < 2 {
+		return
+	}
+	p := verifFuncPerm(len(wl))
+	if len(p) != len(wl) {
+		return
+	}
+	nw := make([]*functionAnalysisState, len(p))
+	for i, j := range p {
+		nw[i] = wl[j]
+	}
+	copy(wl, nw)
+}
+
+// VerifSetMonoCheck switches the per-instruction monotonicity self-check and clears its retained data.
+func VerifSetMonoCheck(on bool) {
+	checkMonotonicityEveryInstruction = on
+	instructionMonoCheckData = map[ssa.Instruction][]cachedGraphMonotonicity{}
+	verifMonoLog = nil
+}
+
+func verifMonoViolation(instr ssa.Instruction, reason string) {
+	if len(verifMonoLog) < 100 {
+		pos := instr.Parent().Prog.Fset.Position(instr.Pos())
+		verifMonoLog = append(verifMonoLog, fmt.Sprintf("%s at %s:%d in %s: %s", instr.String(), pos.Filename, pos.Line, instr.Parent().String(), reason))
+	}
+}
+
+// VerifMonoViolations returns the violations recorded by the self-check and the number of (instruction, graph
+// pair) comparisons data retained.
+func VerifMonoViolations() (violations []string, instructions int, graphs int) {
+	for _, l := range instructionMonoCheckData {
+		instructions++
+		graphs += len(l)
+	}
+	return verifMonoLog, instructions, graphs
+}
+
+// VerifGraphGroup is a set of escape graphs over the same node group (one function).
+type VerifGraphGroup struct {
+	Function *ssa.Function
+	Graphs   []*EscapeGraph
+}
+
+// VerifCapturedGraphs returns, per summarised function, graphs that arose during the analysis: the initial and
+// final graphs, the block-end graphs and (when the self-check is on) the pre/post graphs of its instructions.
+func VerifCapturedGraphs(state dataflow.EscapeAnalysisState, maxPerFunc int) []VerifGraphGroup {
+	impl, ok := state.(*escapeAnalysisImpl)
+	if !ok {
+		return nil
+	}
+	var out []VerifGraphGroup
+	for f, s := range impl.summaries {
+		if s == nil || s.summaryType != "summarize" || s.finalGraph == nil {
+			continue
+		}
+		g := VerifGraphGroup{Function: f}
+		add := func(x *EscapeGraph) {
+			if x != nil && len(g.Graphs) < maxPerFunc {
+				g.Graphs = append(g.Graphs, x)
+			}
+		}
+		add(s.initialGraph)
+		add(s.finalGraph)
+		for _, b := range f.Blocks {
+			add(s.blockEnd[b])
+		}
+		for _, b := range f.Blocks {
+			for _, instr := range b.Instrs {
+				for _, c := range instructionMonoCheckData[instr] {
+					add(c.input)
+					add(c.output)
+				}
+			}
+		}
+		out = append(out, g)
+	}
+	sort.Slice(out, func(i, j int) bool { return out[i].Function.String() < out[j].Function.String() })
+	return out
+}
+
+// VerifSummarySizes returns (edges, nodes, non-local nodes) of the final summary of every summarised function.
+func VerifSummarySizes(state dataflow.EscapeAnalysisState) map[string][3]int {
+	impl, ok := state.(*escapeAnalysisImpl)
+	if !ok {
+		return nil
+	}
+	out := map[string][3]int{}
+	for f, s := range impl.summaries {
+		if s == nil || s.summaryType != "summarize" || s.finalGraph == nil {
+			continue
+		}
+		nl := 0
+		for _, st := range s.finalGraph.status {
+			if st != Local {
+				nl++
+			}
+		}
+		out[f.String()] = [3]int{len(s.finalGraph.Edges(nil, nil, EdgeAll)), len(s.finalGraph.status), nl}
+	}
+	return out
+}
